@@ -6,12 +6,18 @@ import (
 	"sort"
 	"testing"
 
+	"github.com/biogo/biogo/alphabet"
 	"github.com/biogo/biogo/concurrent"
+	"github.com/biogo/biogo/feat"
+	"github.com/biogo/biogo/io/featio"
 	"github.com/biogo/biogo/io/featio/bed"
 	"github.com/biogo/biogo/io/featio/gff"
+	"github.com/biogo/biogo/io/seqio"
 	"github.com/biogo/biogo/io/seqio/fasta"
 	"github.com/biogo/biogo/io/seqio/fastq"
 	"github.com/biogo/biogo/morass"
+	"github.com/biogo/biogo/seq"
+	"github.com/biogo/biogo/seq/linear"
 
 	"verif/harness/simrt"
 )
@@ -24,7 +30,14 @@ func init() {
 	fastq.VerifRT = simrt.Global
 	bed.VerifRT = simrt.Global
 	gff.VerifRT = simrt.Global
-	for _, f := range []*bool{&concurrent.VerifOn, &morass.VerifOn, &fasta.VerifOn, &fastq.VerifOn, &bed.VerifOn, &gff.VerifOn} {
+	seqio.VerifRT = simrt.Global
+	featio.VerifRT = simrt.Global
+	seq.VerifRT = simrt.Global
+	linear.VerifRT = simrt.Global
+	alphabet.VerifRT = simrt.Global
+	feat.VerifRT = simrt.Global
+	for _, f := range []*bool{&concurrent.VerifOn, &morass.VerifOn, &fasta.VerifOn, &fastq.VerifOn, &bed.VerifOn, &gff.VerifOn,
+		&seqio.VerifOn, &featio.VerifOn, &seq.VerifOn, &linear.VerifOn, &alphabet.VerifOn, &feat.VerifOn} {
 		simrt.RegisterFlag(f)
 	}
 }
